@@ -52,7 +52,7 @@ COVERAGE_TARGETS = [
     'slotSet:inst:precedence:ok', 'slotSet:cls:boundsList:ok', 'slotSet:cls:objects:ok', 'slotSet:cls:constant:ok',
     'slotMut:inst:objectsAppend:ok', 'slotMut:inst:namesInsert:ok', 'slotMut:inst:boundsSetHi:ok', 'slotMut:inst:boundsSetHi:TypeError',
     'slotMut:cls:objectsAppend:ok', 'slotMut:cls:namesInsert:ok', 'slotMut:cls:boundsSetHi:ok', 'slotSet:inst:objects:AttributeError',
-    'leaky-ctor-kwarg', 'skipped:no-instance',
+    'leaky-ctor-kwarg', 'skipped:no-instance', 'mkInst:pending-ref:ok', 'sharedFail:ok',
 ]
 
 ERRS = (ValueError, TypeError, AttributeError)
@@ -60,8 +60,26 @@ ERRS = (ValueError, TypeError, AttributeError)
 
 # ------------------------------------------------------------------ implementation side
 
+def _skip(ready):
+    import param
+    raise param.Skip
+
+
+_SRC = []
+
+
+def _pending_ref():
+    """a reference that has no value now (its function skips): depends on a parameter of a source object"""
+    import param
+    if not _SRC:
+        _SRC.append(type('Src', (param.Parameterized,), {'ready': param.Boolean(False)}))
+    return param.bind(_skip, _SRC[0]().param.ready)
+
+
 def _mk_param(param, d):
     kw = {'instantiate': d['inst'], 'constant': d['const'], 'per_instance': d['pi']}
+    if d.get('refs'):
+        kw['allow_refs'] = True
     default = list(d['default']) if isinstance(d['default'], list) else d['default']
     if d['kind'] == 'plain':
         return param.Parameter(default=default, **kw)
@@ -126,6 +144,7 @@ class _World:
             ms.append(['objects', {'c': self.cid(objs), 'v': list(objs)}])
         return {'kind': kind, 'owner': self.owner(p.owner), 'default': self.val(p.default), 'inst': bool(p.instantiate),
                 'const': bool(p.constant), 'pi': bool(p.per_instance), 'cos': bool(getattr(p, 'check_on_set', False)),
+                'refs': bool(p.allow_refs),
                 'prec': p.precedence, 'btup': btup, 'ms': ms}
 
     def names_of(self, K):
@@ -161,6 +180,9 @@ class _World:
 
 
 def _lit(v):
+    if v == 'pending':
+        # a reference that has no value now: assigns nothing when given to the constructor of an allow_refs parameter
+        return _pending_ref()
     return list(v) if isinstance(v, list) else v
 
 
@@ -176,6 +198,13 @@ def _apply(w, op):
         if got != list(op['mro']):
             raise RuntimeError(f'mro of the case {op["mro"]} is not the real one {got}')
         w.classes.append(K)
+        return None
+    if o == 'sharedFail':
+        try:
+            with param.shared_parameters():
+                raise KeyError('left by an exception')
+        except KeyError:
+            pass
         return None
     if o == 'mkInst':
         try:
@@ -229,6 +258,9 @@ def _apply(w, op):
 
 def run_impl(case):
     import param
+    # cases are independent of each other: the process-wide sharing state starts clean
+    param.parameterized.shared_parameters._share = False
+    param.parameterized.shared_parameters._shared_cache = {}
     w = _World(param)
     steps = []
     prev = {'err': None, 'classes': [], 'insts': []}
@@ -301,9 +333,12 @@ def compare(impl, model):
 
 # ------------------------------------------------------------------ generation
 
-def D(name, kind, default, inst=False, const=False, pi=True, cos=False, btup=None, blist=None, objects=None):
+def D(name, kind, default, inst=False, const=False, pi=True, cos=False, btup=None, blist=None, objects=None, refs=False):
     return {'name': name, 'kind': kind, 'default': default, 'inst': inst, 'const': const, 'pi': pi, 'cos': cos,
-            'btup': btup, 'blist': blist, 'objects': objects}
+            'btup': btup, 'blist': blist, 'objects': objects, 'refs': refs}
+
+
+SHARED_FAIL = {'op': 'sharedFail'}
 
 
 def mkClass(mro, decls):
@@ -376,6 +411,12 @@ def directed():
                  sset(I(0), 0, objects=[1]), smut(I(0), 5, boundsSetHi=3), smut(I(0), 1, boundsSetHi=3), mkInst(0, [(0, 99)]), setV(I(2), 0, 1), acc(2, 0),
                  mkInst(0, [(1, 50), (0, 99)]), mkInst(1, [(6, 9)]), setV(C(1), 6, 9), setV(C(1), 0, 99), mkInst(0, [(9, 1)])]
     yield two + [mkClass([1, 0], [D(7, 'plain', 0)]), mkInst(2), setV(C(2), 1, 5), setV(C(1), 1, 6), setV(I(2), 7, [1]), mutV(I(2), 7, 2), setV(C(2), 7, 1)]
+    # a constructor keyword that is a reference without a value assigns nothing: the instantiate=True default is still copied
+    yield [mkClass([], [D(0, 'plain', [1, 2], inst=True, refs=True), D(1, 'plain', [3], inst=True, refs=True, const=True), D(2, 'plain', 4, refs=True)]),
+           mkInst(0, [(0, 'pending')]), mkInst(0), mkInst(0, [(0, 'pending'), (1, 'pending'), (2, 'pending')]), mutV(I(0), 0, 9), mutV(I(2), 1, 8),
+           setV(C(0), 0, [5]), mkInst(0, [(0, [6]), (1, 'pending')]), mutV(I(3), 1, 7), setV(C(0), 2, 5)]
+    # a shared_parameters block left by an exception leaves no sharing behind
+    yield BASE + [SHARED_FAIL, mkInst(0), mkInst(0), mkInst(1), mutV(I(0), 2, 9), setV(C(0), 2, [8]), mkInst(0), SHARED_FAIL, mkInst(1), mutV(I(3), 2, 1)]
     # defaults that are None at construction time and filled in on the class later
     yield [mkClass([], [D(0, 'plain', None, inst=True), D(1, 'plain', None, const=True), D(2, 'plain', None), D(3, 'plain', None, inst=True, const=True)]),
            mkClass([0], []), mkInst(0), mkInst(1), setV(C(0), 0, [1, 2]), setV(C(0), 1, 7), setV(C(0), 2, [3]), setV(C(1), 3, [4]), mutV(C(0), 0, 9),
@@ -406,7 +447,8 @@ def _rand_decl(rng, name):
         if rng.random() < 0.2:
             return D(name, kind, None, inst=rng.random() < 0.5, const=rng.random() < 0.4, pi=pi)
         if rng.random() < 0.65:
-            return D(name, kind, [rng.randint(1, 9) for _ in range(rng.randint(0, 2))], inst=rng.random() < 0.5, const=const, pi=pi)
+            return D(name, kind, [rng.randint(1, 9) for _ in range(rng.randint(0, 2))], inst=rng.random() < 0.5, const=const, pi=pi,
+                     refs=pi and rng.random() < 0.25)
         return D(name, kind, rng.randint(0, 9), inst=rng.random() < 0.3, const=const, pi=pi)
     if kind == 'number':
         r = rng.random()
@@ -435,6 +477,9 @@ def _random_case(rng, leaky):
     n_ops = rng.randint(3, 20)
     while len(ops) < n_ops:
         r = rng.random()
+        if r > 0.985:
+            ops.append(dict(SHARED_FAIL))
+            continue
         if r < 0.07 and len(classes) < 3:
             p = rng.randrange(len(classes))
             add_class([p] + classes[p][0])
@@ -443,7 +488,9 @@ def _random_case(rng, leaky):
             k = rng.randrange(len(classes))
             kw = []
             for x, d in classes[k][1].items():
-                if rng.random() < 0.3:
+                if d.get('refs') and rng.random() < 0.5:
+                    kw.append((x, 'pending'))
+                elif rng.random() < 0.3:
                     kw.append((x, _value(rng, d, safe=not leaky)))
             ops.append(mkInst(k, kw))
             attempts.append(k)
